@@ -1,5 +1,5 @@
 #!/usr/bin/env python3
-"""evalmut.py <ID> <a|b> [--checks C01,C05 ...] [--tier quick|thorough] [--skip-confirm]
+"""evalmut.py <ID> <a|b> [--checks C01,C05 ...] [--tier quick|thorough] [--skip-confirm] [--confirm-only]
 
 1. confirms a sub-agent's mutation in ITS scratch worktree (/tmp/mut-<ID>): the patch applies, the
    crate builds with and without the hooks feature, the pinned test suite passes with it, the
@@ -25,6 +25,7 @@ def main():
     checks = [pid]
     tier = "quick"
     skip_confirm = False
+    confirm_only = False
     args = sys.argv[3:]
     while args:
         a = args.pop(0)
@@ -34,6 +35,8 @@ def main():
             tier = args.pop(0)
         elif a == "--skip-confirm":
             skip_confirm = True
+        elif a == "--confirm-only":
+            confirm_only = True
     wt = os.environ.get("MUT_WT_PREFIX", "/tmp/mut-") + pid
     src = os.path.join(wt, "MUTATION", which)
     patch = os.path.join(src, "patch.diff")
@@ -79,6 +82,15 @@ def main():
         meta["confirmation"] = conf
         print("confirmation:", json.dumps({k: (v if not isinstance(v, dict) else {kk: vv for kk, vv in v.items() if kk != "tail"}) for k, v in conf.items()}))
 
+    if confirm_only:
+        mp = os.path.join(dst, "meta.json")
+        if os.path.exists(mp):
+            try:
+                meta["ran"] = json.load(open(mp)).get("ran", [])
+            except Exception:
+                pass
+        json.dump(meta, open(mp, "w"), indent=1)
+        return
     # ---- run the checks against /repo with the patch applied
     rc, out = sh(["git", "status", "--porcelain"], "/repo")
     if out.strip():
